@@ -8,6 +8,7 @@ package nebula
 
 import (
 	"net/netip"
+	"sort"
 )
 
 // CloseTunnelLocal is Interface.closeTunnel on the hostinfo registered under the local index.
@@ -119,5 +120,74 @@ func (n *VerifNode) HostIndexes(vpnAddr netip.Addr) []uint32 {
 	for _, h := range hm.unlockedGetHostList(vpnAddr) {
 		out = append(out, h.localIndexId)
 	}
+	return out
+}
+
+// ---- stale hostinfo entry points (a hostinfo pointer that outlives its tunnel)
+
+// InjectBatch is one receive batch of listenOut: readOutsidePackets on every datagram with the same
+// rxContext (so the per batch hostmap cache is shared by the datagrams), then the flusher (tun flush,
+// cache cleared) once at the end.
+func (n *VerifNode) InjectBatch(from []netip.AddrPort, packets [][]byte) {
+	for i := range packets {
+		n.F.readOutsidePackets(ViaSender{UdpAddr: from[i]}, packets[i], n.rxc)
+	}
+	if err := n.F.batchers[0].Flush(); err != nil {
+		n.F.l.Error("Failed to flush tun coalescer", "error", err)
+	}
+	clear(n.rxc.hostmapCache)
+}
+
+// MigrateRelayUsedStale is connectionManager.migrateRelayUsed(old, new) racing a teardown: both hostinfo
+// pointers are taken first (what makeTrafficDecision hands to doTrafficCheck), then closeTunnel runs on
+// the chosen ones, then migrateRelayUsed is called with the kept pointers.
+func (n *VerifNode) MigrateRelayUsedStale(oldIndex, newIndex uint32, closeOld, closeNew bool) bool {
+	o, p := n.F.hostMap.QueryIndex(oldIndex), n.F.hostMap.QueryIndex(newIndex)
+	if o == nil || p == nil {
+		return false
+	}
+	if closeOld {
+		n.F.closeTunnel(o)
+	}
+	if closeNew {
+		n.F.closeTunnel(p)
+	}
+	n.F.connectionManager.migrateRelayUsed(o, p)
+	return true
+}
+
+// UnlockedDeleteIndex is HostMap.unlockedDeleteHostInfo on the hostinfo registered under the local index,
+// WITHOUT taking the hostmap lock. For a harness rand.Reader only: AddRelay draws its index right after
+// taking the hostmap write lock, so a teardown landed from inside that read is a teardown that completed
+// between the caller's hostinfo lookup and AddRelay's Lock().
+func (n *VerifNode) UnlockedDeleteIndex(localIndex uint32) bool {
+	hm := n.F.hostMap
+	hi := hm.Indexes[localIndex]
+	if hi == nil {
+		return false
+	}
+	hm.unlockedDeleteHostInfo(hi)
+	return true
+}
+
+// VerifRelayIndex is one entry of hm.Relays, by pointer: the owner's local index, whether that very hostinfo
+// is still registered in hm.Indexes, and whether its relay state lists the index.
+type VerifRelayIndex struct {
+	Index, Owner uint32
+	OwnerLive    bool
+	InOwnerState bool
+}
+
+// RelayIndexes lists hm.Relays sorted by index.
+func (n *VerifNode) RelayIndexes() []VerifRelayIndex {
+	hm := n.F.hostMap
+	hm.RLock()
+	defer hm.RUnlock()
+	out := make([]VerifRelayIndex, 0, len(hm.Relays))
+	for i, hi := range hm.Relays {
+		_, in := hi.relayState.QueryRelayForByIdx(i)
+		out = append(out, VerifRelayIndex{Index: i, Owner: hi.localIndexId, OwnerLive: hm.Indexes[hi.localIndexId] == hi, InOwnerState: in})
+	}
+	sort.Slice(out, func(a, b int) bool { return out[a].Index < out[b].Index })
 	return out
 }
